@@ -826,5 +826,5 @@ func genC08Stores(c *hlib.Ctx, nStores, nReq int) {
 func genC08(c *hlib.Ctx) {
 	genC08Pure(c, c.N(2000, 100000))
 	genFrmSplit(c, c.N(1500, 60000))
-	genC08Stores(c, c.N(60, 2500), c.N(10, 20))
+	genC08Stores(c, c.N(16, 500), c.N(40, 80)) // writing a block costs 0.1-0.4 s, a request ~1 ms
 }
